@@ -472,17 +472,22 @@ func (s *PlaySc) Run(env *core.Env, st *core.Stats) (vs []core.Violation) {
 				}
 			}
 			start = time.Now()
+			rot := 0
+			if round == 1 {
+				rot = 1 // the second playback uses the next port for everything
+			}
+			np := len(ports)
 			if s.Mode == "play" {
-				playErr = tr.Play(ports[0])
+				playErr = tr.Play(ports[rot%np])
 			} else {
 				m := map[int]drivers.Out{}
 				for _, p := range s.Map {
-					ports[p[1]].Open()
-					m[p[0]] = ports[p[1]]
+					ports[(p[1]+rot)%np].Open()
+					m[p[0]] = ports[(p[1]+rot)%np]
 				}
 				if s.Default >= 0 {
-					ports[s.Default].Open()
-					m[-1] = ports[s.Default]
+					ports[(s.Default+rot)%np].Open()
+					m[-1] = ports[(s.Default+rot)%np]
 				}
 				playErr = tr.MultiPlay(m)
 			}
@@ -588,7 +593,18 @@ func (s *PlaySc) Run(env *core.Env, st *core.Stats) (vs []core.Violation) {
 		if v := s.checkPlayback(firstLog, exp, order, segments, desc, "first playback: "); v != nil {
 			return v
 		}
-		return s.checkPlayback(log, exp, order, segments, desc, "second playback of the same TracksReader: ")
+		// expected ports of the second playback: rotated by one
+		exp2 := map[string]*expPlay{}
+		order2 := make([][]*expPlay, len(order))
+		for ti := range order {
+			for _, x := range order[ti] {
+				y := *x
+				y.port = (x.port + 1) % len(s.Ports)
+				exp2[string(y.msg)] = &y
+				order2[ti] = append(order2[ti], &y)
+			}
+		}
+		return s.checkPlayback(log, exp2, order2, segments, desc, "second playback of the same TracksReader (ports rotated by one): ")
 	}
 	return s.checkPlayback(log, exp, order, segments, desc, "")
 }
